@@ -558,5 +558,6 @@ func runC09() int {
 	rep.Coverage["rule"] = fmt.Sprintf("every sequence of <= depth macro operations {add 1, grow to boundary height, revert to boundary height, save, save+reload} over boundary heights (%s), both delete-missing behaviours; each executed on the real BlockRepository over RecStore and compared after every operation with a reference slice (every by-height/by-hash/tip query at all file boundaries +-1, negative and beyond-tip heights; node-level BlockHash/GetHeaders after each save). states = operation sequences executed (no merging); distinct = distinct (tip, newest-file-saved state, number of reverted headers) outcomes", fmt.Sprint(cfgs))
 	rep.Coverage["depth_completed"] = cfgs[len(cfgs)-1].depth
 	rep.Assumptions = []string{"storage Write/Remove are atomic per key", "headers are synthetic (no proof of work); branch salt makes re-grown headers differ from reverted ones"}
+	repoConc(rep, "C09")
 	return rep.Finish()
 }
